@@ -18,3 +18,4 @@ import MenpoModel.Props.C18Seq
 import MenpoModel.Props.C18Resize
 import MenpoModel.Props.C18Norm
 import MenpoModel.Props.C18Plumb
+import MenpoModel.Props.C18Real
